@@ -495,7 +495,7 @@ func genGrepRepeatCase(rt *rapid.T, label string, pairedOK bool) grepCase {
 	xp := x
 	xp.pool = []gRec{passer}
 	passes := func(o gOpt, r gRec) bool {
-		s := gSelection{Opts: []gOpt{o}, IDList: c.IDList, Tree: c.Tree}
+		s := gSelection{Opts: []gOpt{o}, IDList: c.IDList, Tree: c.Tree, Approx: c.approx()}
 		ok, _, err := s.keepOne(r)
 		return err == nil && ok
 	}
@@ -677,7 +677,7 @@ func genGrepRepeatCase(rt *rapid.T, label string, pairedOK bool) grepCase {
 	// point; the first suitable one replaces an unrelated record (it keeps the rank of
 	// the slot in its identifier).  No suitable variant: the slot keeps its random record.
 	verdict := func(opts []gOpt, r gRec) (bool, bool) {
-		s := gSelection{Opts: opts, IDList: c.IDList, Tree: c.Tree}
+		s := gSelection{Opts: opts, IDList: c.IDList, Tree: c.Tree, Approx: c.approx()}
 		ok, _, err := s.keepOne(r)
 		return ok, err == nil
 	}
@@ -842,6 +842,9 @@ func gSelectionArgs(c *grepCase, dir string) ([]string, error) {
 		}
 		args = append(args, "-t", "tax")
 	}
+	if c.ApproxModsFirst {
+		args = append(args, c.approxArgs()...)
+	}
 	for _, o := range c.Opts {
 		name := o.Name
 		if o.Long {
@@ -862,6 +865,9 @@ func gSelectionArgs(c *grepCase, dir string) ([]string, error) {
 		default:
 			args = append(args, name, o.Val)
 		}
+	}
+	if !c.ApproxModsFirst {
+		args = append(args, c.approxArgs()...)
 	}
 	if c.Invert {
 		if c.InvertLong {
